@@ -40,8 +40,84 @@ GROUPS = {
     'Arith': dict(kind='translate', flags=RELEASE, names=ARITH, mem=False),
     'Tables': dict(kind='tables', flags=RELEASE),
     'Secure': dict(kind='translate', flags=SECURE, names=SECURE_FNS, namespace='GenS', log_errors=True),
+    'Formats': dict(kind='custom', flags=RELEASE, fn='gen_formats'),
     'Entry': dict(kind='translate', flags=RELEASE, names=ENTRY, mem=False, explicit_in=('mi_posix_memalign',), namespace='GenE'),
 }
+
+def c_unescape(lit):
+    """value of a C string literal as clang prints it (with quotes, possibly several concatenated pieces)"""
+    out = []; i = 0; n = len(lit); instr = False
+    while i < n:
+        ch = lit[i]
+        if not instr:
+            if ch == '"': instr = True
+            i += 1; continue
+        if ch == '"':
+            instr = False; i += 1; continue
+        if ch == '\\':
+            i += 1; e = lit[i]
+            simple = {'n': '\n', 't': '\t', 'r': '\r', '0': '\0', '\\': '\\', '"': '"', "'": "'", 'a': '\a', 'b': '\b', 'f': '\f', 'v': '\v', '?': '?'}
+            if e == 'x':
+                j = i + 1
+                while j < n and lit[j] in '0123456789abcdefABCDEF': j += 1
+                out.append(chr(int(lit[i + 1:j], 16) & 0xff)); i = j; continue
+            if e in '01234567':
+                j = i
+                while j < n and j < i + 3 and lit[j] in '01234567': j += 1
+                out.append(chr(int(lit[i:j], 8) & 0xff)); i = j; continue
+            out.append(simple.get(e, e)); i += 1; continue
+        out.append(ch); i += 1
+    return ''.join(out)
+
+
+def lean_str(s):
+    r = []
+    for ch in s:
+        o = ord(ch)
+        if ch == '"': r.append('\\"')
+        elif ch == '\\': r.append('\\\\')
+        elif ch == '\n': r.append('\\n')
+        elif ch == '\t': r.append('\\t')
+        elif ch == '\r': r.append('\\r')
+        elif 32 <= o < 127: r.append(ch)
+        else: r.append('\\x%02x' % (o & 0xff))
+    return '"' + ''.join(r) + '"'
+
+
+def gen_formats(tu, spec):
+    """every string literal of the translation unit that contains a '%' (the formats the allocator passes to its own printf)"""
+    found = set()
+    def walk(n):
+        if n.get('kind') == 'StringLiteral':
+            v = c_unescape(n.get('value', ''))
+            if '%' in v and len(v) < 400:
+                found.add(v)
+        for c in n.get('inner', []):
+            walk(c)
+    for f in tu.FNS.values():
+        walk(f)
+    if not found:
+        raise T.TranslateError('no format strings found')
+    L = ['-- GENERATED by /verif/extract/gen.py from the string literals of %s/src/static.c. DO NOT EDIT.' % tu.repo, 'namespace Gen',
+         'def internalFormats : List String := [']
+    L.append(',\n'.join('  ' + lean_str(v) for v in sorted(found)))
+    L.append(']')
+    def lean_char(ch):
+        o = ord(ch)
+        if ch == "'": return "'\\''"
+        if ch == '\\': return "'\\\\'"
+        if ch == '\n': return "'\\n'"
+        if ch == '\t': return "'\\t'"
+        if ch == '\r': return "'\\r'"
+        if 32 <= o < 127: return "'%s'" % ch
+        return "'\\x%02x'" % (o & 0xff)
+    L.append('/-- the same table as character lists (cheap to evaluate in the kernel) -/')
+    L.append('def internalFormatChars : List (List Char) := [')
+    L.append(',\n'.join('  [' + ', '.join(lean_char(c) for c in v) + ']' for v in sorted(found)))
+    L.append(']\nend Gen')
+    L += ['-- HEX ' + v.encode('latin-1', 'replace').hex() for v in sorted(found)]
+    return '\n'.join(L) + '\n'
+
 
 HEADER = 'set_option linter.unusedVariables false\nset_option maxRecDepth 4096'
 
@@ -143,7 +219,7 @@ def generate(repo, outdir, cache, groups=None, force=False):
                                                 namespace=spec.get('namespace', 'Gen'), log_errors=spec.get('log_errors', False), imports=spec.get('imports', ('MiVerif.Gen.Prelude',)),
                                                 header=HEADER)
                     elif spec['kind'] == 'custom':
-                        txt = spec['fn'](tu, spec)
+                        txt = globals()[spec['fn']](tu, spec)
                     else:
                         raise T.TranslateError('unknown group kind')
                 status[g] = None
